@@ -1492,6 +1492,10 @@ int hawk_rtx_closeio (hawk_rtx_t* rtx, const hawk_ooch_t* name, const hawk_ooch_
 				{
 					if (p->type & IO_MASK_RDWR)
 					{
+						/* the read end has been closed already.
+						 * there is no read end left to close */
+						if (p->rwcstate == HAWK_RIO_CMD_CLOSE_READ) goto skip;
+
 						if (p->rwcstate != HAWK_RIO_CMD_CLOSE_WRITE)
 						{
 							/* if the write end is not
@@ -1507,6 +1511,10 @@ int hawk_rtx_closeio (hawk_rtx_t* rtx, const hawk_ooch_t* name, const hawk_ooch_
 					HAWK_ASSERT (opt[0] == HAWK_T('w'));
 					if (p->type & IO_MASK_RDWR)
 					{
+						/* the write end has been closed already.
+						 * there is no write end left to close */
+						if (p->rwcstate == HAWK_RIO_CMD_CLOSE_WRITE) goto skip;
+
 						if (p->rwcstate != HAWK_RIO_CMD_CLOSE_READ)
 						{
 							/* if the read end is not
